@@ -714,6 +714,19 @@ Proof.
   split; vm_compute; intros H; discriminate H.
 Qed.
 
+(* results are values: what a history yields for its first operations is what those operations yield on their
+   own — later operations (by any session, in any number) leave earlier results unchanged *)
+Lemma run_uops_later_ops_irrelevant parse_ip (a b : list uop) :
+  firstn (length a) (run_uops parse_ip (a ++ b)) = run_uops parse_ip a.
+Proof.
+  unfold run_uops. rewrite map_app. rewrite <- (map_length (run_uop parse_ip) a).
+  rewrite firstn_app, Nat.sub_diag, firstn_all. cbn [firstn]. apply app_nil_r.
+Qed.
+
+Lemma run_uops_nth parse_ip (l : list uop) i o :
+  nth_error l i = Some o -> nth_error (run_uops parse_ip l) i = Some (run_uop parse_ip o).
+Proof. intros H. unfold run_uops. now apply map_nth_error. Qed.
+
 (* non-vacuity of the assumptions made of Go's net package: a toy text format satisfies them *)
 Definition toy_ip_string (a : list byte) : list byte :=
   if lenN a =? 4 then 4 :: a else if is_v4mapped a then 4 :: skipn 12 a else 6 :: a.
